@@ -1,0 +1,55 @@
+//! Verification hooks: read-only view on the private lexer.
+//! Only compiled with `--features verif_hooks`.
+use crate::parse::lex::token::{Lex, Token};
+use crate::parse::lex::tokenize;
+
+#[derive(Debug, Clone)]
+pub struct LexItem {
+    /// Variant name of the token, e.g. `Id`, `Str`, `NL`.
+    pub kind: String,
+    /// `Display` of the token.
+    pub lexeme: String,
+    /// Raw payload of literal-like tokens (identifier, digits, string body, comment text).
+    pub payload: Vec<String>,
+    pub start: (usize, usize),
+    pub end: (usize, usize),
+    /// Tokens of the interpolated expressions of a string token.
+    pub inner: Vec<Vec<LexItem>>,
+}
+
+fn kind_of(token: &Token) -> String {
+    let dbg = format!("{token:?}");
+    dbg.split(|c: char| !c.is_alphanumeric())
+        .next()
+        .unwrap_or("")
+        .to_string()
+}
+
+fn item(lex: &Lex) -> LexItem {
+    let (payload, inner) = match &lex.token {
+        Token::Id(s) | Token::Real(s) | Token::Int(s) | Token::DocStr(s) | Token::Comment(s) => {
+            (vec![s.clone()], vec![])
+        }
+        Token::ENum(a, b) => (vec![a.clone(), b.clone()], vec![]),
+        Token::Str(s, inner) => (
+            vec![s.clone()],
+            inner.iter().map(|v| v.iter().map(item).collect()).collect(),
+        ),
+        _ => (vec![], vec![]),
+    };
+    LexItem {
+        kind: kind_of(&lex.token),
+        lexeme: format!("{}", lex.token),
+        payload,
+        start: (lex.pos.start.line, lex.pos.start.pos),
+        end: (lex.pos.end.line, lex.pos.end.pos),
+        inner,
+    }
+}
+
+/// Tokenize `input` exactly as the parser does (comments included).
+pub fn lex(input: &str) -> Result<Vec<LexItem>, (usize, usize, String)> {
+    tokenize(input)
+        .map(|tokens| tokens.iter().map(item).collect())
+        .map_err(|err| (err.pos.line, err.pos.pos, err.msg))
+}
